@@ -2,6 +2,7 @@ CONSTANTS
  Scenario = 1
  InitTtl = "none"
  Variant = "restore_replace"
+ GetdelBlocking = TRUE
  OwnerSwitch = "sync"
  Ops <- MCOps
  Kind <- MCKind
